@@ -398,8 +398,20 @@ Definition refuted (p : list op) : Prop :=
 Definition accepted (p : list op) : Prop :=
   guard_ok p = true /\ wellformed (events (run p)) = true.
 
-Lemma k17_refuted_l : refuted k17_prog. Proof. vm_compute. split; reflexivity. Qed.
-Lemma emptyns_refuted_l : refuted emptyns_prog. Proof. vm_compute. split; reflexivity. Qed.
+(* KN10: <o xmlns:p="u4"><e p:a=".." xsl:use-attribute-sets="s"/></o>, s = xsl:attribute name="p:z" namespace="u6" *)
+Definition kn10_prog : list op :=
+  [OLre (None, U 1) [(Some (U 0), 4)] [] [];
+   OLreOpen (None, U 2) [(Some (U 0), 4)] [] [((Some (U 0), U 3), 9)];
+   OSetAttr (Some (U 0), U 4) (Some 6) None 8;
+   OLreAttrs [(Some (U 0), 4)] [((Some (U 0), U 3), 9)]; OEnd; OEnd].
+
+(* each of these is a witness against the full statement on a tree without the repair, and a
+   regression example (guard holds, reader accepts) on a tree with it; GenNsfix says which *)
+Definition witness (fixed : bool) (p : list op) : Prop := if fixed then accepted p else refuted p.
+
+Lemma k17_witness_l : witness k17_fixed k17_prog. Proof. vm_compute. split; reflexivity. Qed.
+Lemma emptyns_witness_l : witness kn6_fixed emptyns_prog. Proof. vm_compute. split; reflexivity. Qed.
+Lemma kn10_witness_l : witness kn10_fixed kn10_prog. Proof. vm_compute. split; reflexivity. Qed.
 
 (* repaired: K3, K16 (xmlns: and xml:), KN1, KN2, KN3, KN4, KN5 *)
 Definition k3_prog : list op :=
